@@ -35,11 +35,12 @@ EXPLANATION = (
     "from /repo on every run (harness/gen/handlerstore.py) and interpreted by the model. Theorems, for all operation "
     "sequences and filter combinations: query = rows of the current table passing every given filter (an empty list "
     "passes nothing); delete with >= 1 filter removes exactly those and returns their number; memory and SQLite matching "
-    "are equal as functions and whole runs give equal outputs; retention: after every update all non-terminal handlers "
-    "of the upserted table are kept, min(max_completed, #terminal) terminal ones are kept, and no kept one became "
-    "terminal before an evicted one ('most recently completed' = order of the update at which the handler last turned "
-    "terminal or was re-inserted terminal; later terminal updates of the same handler do not move it); nothing else "
-    "ever evicts; the number of terminal handlers never exceeds max_completed. Tie: one random op stream per case is "
+    "are equal as functions and whole runs give equal outputs; retention: after every write all non-terminal handlers "
+    "of the upserted table are kept, min(max_completed, #terminal) terminal ones are kept, and every kept one became "
+    "terminal later than every evicted one ('most recently completed' = order of the write at which the handler last turned "
+    "terminal or was re-inserted terminal; later terminal writes of the same handler do not move it -- C24_completed_stamp "
+    "ties that ghost stamp to the history); nothing else ever evicts; the number of terminal handlers never exceeds "
+    "max_completed. Tie: one random op stream per case is "
     "run against the model driver, the real MemoryWorkflowStore (bounded and unbounded) and the real SqliteWorkflowStore "
     "(both single_connection modes, temp files) and compared after every op. Search: query/delete results against a "
     "brute-force filter over a shadow dict, memory-vs-SQLite agreement, retention against completion stamps."
@@ -529,6 +530,25 @@ def gen_case(rng, nops: int) -> dict:
             h["st"] = rng.choice([1, 2, 3])
             for _ in range(rng.randint(2, 4)):
                 ops.append({"k": "U", "h": dict(h)})
+        elif r < 0.44 and len(ids) >= 3:
+            # created in one order, completed in another, something deleted in between, then more completions
+            some = rng.sample(ids, rng.randint(3, min(5, len(ids))))
+            for i in some:
+                h = handler(i)
+                h["st"] = 0
+                ops.append({"k": "U", "h": h})
+            order = some[:]
+            rng.shuffle(order)
+            cut = rng.randint(1, len(order) - 1)
+            for i in order[:cut]:
+                h = handler(i)
+                h["st"] = rng.choice([1, 2, 3])
+                ops.append({"k": "U", "h": h})
+            ops.append({"k": "D", "q": {"hid": [rng.choice(ids)], "run": None, "wf": None, "st": None, "idle": None}})
+            for i in order[cut:]:
+                h = handler(i)
+                h["st"] = rng.choice([1, 2, 3])
+                ops.append({"k": "U", "h": h})
         elif r < 0.58:
             clock += rng.randint(0, 3)
             ops.append({"k": "S", "run": rng.choice(runs) if rng.random() < 0.9 else rng.choice(pools["any"]),
